@@ -345,6 +345,21 @@ def generate(seed, tier):
             v = [float(rng.randint(0, hi)) + (q * rng.randint(0, 5) if rng.random() < 0.3 else 0.0) for _ in range(n * n)]
             ops.append("lap %d %d %s" % (n, n, " ".join(hx(x) for x in v)))
         cases.append([case_line(rng, "lapwar%d" % i)] + ops)
+    # costs that are not finite numbers (NaN, +-inf, alone and mixed with finite ones: the routine must
+    # raise) and finite costs near the largest double (the reduced costs overflow: known finding
+    # C04-lap-overflow - the routine must still return, without touching memory outside its vectors)
+    for i in range(24 if tier == "thorough" else 6):
+        ops = []
+        for _ in range(10):
+            n = rng.choice([1, 2, 3, 3, 4, 5, 6])
+            if rng.random() < 0.6:
+                pool = [float("inf"), float("inf"), float("-inf"), float("nan"), 0.0, 1.0, 2.0, 3.0, -1.0]
+                v = [rng.choice(pool) for _ in range(n * n)]
+            else:
+                pool = [1e308, -1e308, 5e307, -5e307, 1.7e308, 0.0, 1.0, 3.0, -2.0]
+                v = [rng.choice(pool) for _ in range(n * n)]
+            ops.append("lap %d %d %s" % (n, n, " ".join(hx(x) for x in v)))
+        cases.append([case_line(rng, "lapnf%d" % i)] + ops)
     # larger problems (no brute force beyond 7x7: the certificate alone is evaluated)
     for i in range(12 if tier == "thorough" else 3):
         ops = []
@@ -414,8 +429,9 @@ def compare(op_line, impl, model):
         # lap: a loop of the transcription ran out of fuel
         return impl.startswith("hang")
     if m == "inf":
-        # lap on non-finite costs: the sentinel +inf entered the arithmetic (outside the model)
-        return True
+        # lap: the sentinel +inf entered the arithmetic (reduced costs overflowed; outside the number
+        # domain of the model): the implementation must still answer
+        return not (impl.startswith("crash") or impl.startswith("hang") or impl.startswith("short"))
     return " ".join(impl.split()) == " ".join(m.split())
 
 
